@@ -97,6 +97,8 @@ pub struct State {
     /// C20 online assertion failures
     pub violations: Vec<String>,
     pub read_only_expected: bool,
+    /// close() reports an error (and closes all the same)
+    pub fail_close: bool,
     pub fault: Fault,
     /// total calls of any kind (for sizing fault enumeration)
     pub calls: u64,
@@ -157,6 +159,7 @@ impl MonBackend {
                     closed: false,
                     violations: Vec::new(),
                     read_only_expected: false,
+                    fail_close: false,
                     fault: Fault::default(),
                     calls: 0,
                     calls_by_kind: [0; 5],
@@ -430,6 +433,10 @@ impl StorageBackend for MonBackend {
                 .push(format!("backend[{n}] close() called more than once"));
         }
         st.closed = true;
+        if st.fail_close {
+            // the backend is closed all the same: the contract allows no second attempt
+            return Err(injected());
+        }
         Ok(())
     }
 }
